@@ -218,8 +218,12 @@ def render_recipe(name, pkg, proj, is_root):
     if pkg["src"]:
         rec["checkoutSCM"] = {"scm": "import", "url": "src/" + name, "dir": pkg["src"]["dir"], "prune": True}
     if pkg["co"]:
+        # the generated file lives inside the (pruned) import directory: Bob never cleans a checkout workspace, a
+        # file left by a script that is later removed from the recipe would make the sources - and with them every
+        # Build-Id above - depend on the history of the workspace instead of on the project state
+        gdir = pkg["src"]["dir"] if pkg["src"] else "."
         rec["checkoutDeterministic"] = True
-        rec["checkoutScript"] = "echo \"C %s %d\" > gen.txt\n" % (name, pkg["co"]["id"])
+        rec["checkoutScript"] = "mkdir -p %s\necho \"C %s %d\" > %s/gen.txt\n" % (gdir, name, pkg["co"]["id"], gdir)
     strong = ["t_" + d for d in pkg["useTools"] if d not in pkg["weakTools"]]
     weak = ["t_" + d for d in pkg["useTools"] if d in pkg["weakTools"]]
     bvars = sorted(set(pkg["bvars"]))
